@@ -289,9 +289,11 @@ NumLight == {Light(31, <<Cyc("RED", 2)>>, 0, XYp(t, t), "ALL", 1) : t \in AnyTok
 (* ------------------------------ cases ------------------------------------------------------------------------------ *)
 Case(comp, d, desc) == [comp |-> comp, d |-> d, desc |-> desc, reuse |-> <<>>]
 Ru(edit, w2) == <<[edit |-> edit, w2 |-> w2]>>
-CaseR(comp, d, desc, ru) == [comp |-> comp, d |-> d, desc |-> desc, reuse |-> IF ReuseOK(desc, ru) THEN ru ELSE <<>>]
+(* (a case that triggers the known finding on virtual signs keeps its plain signature: no writer reuse there) *)
+CaseR(comp, d, desc, ru) == [comp |-> comp, d |-> d, desc |-> desc,
+                             reuse |-> IF ReuseOK(desc, ru) /\ (\A i \in DOMAIN desc.signs : desc.signs[i].virt = 0) THEN ru ELSE <<>>]
 (* one case in three of the mixed draws reuses its writer: a random edit, second write full or scenario-only *)
-RandomReuse == LET k == RandomElement(1..30) IN
+RandomReuse(i) == LET k == RandomElement(1..30) IN      \* (the parameter keeps TLC from caching one draw)
                IF k > 10 THEN <<>> ELSE Ru(EditTokens[((k - 1) % Len(EditTokens)) + 1], IF k <= 5 THEN "full" ELSE "scenario")
 WithL1Refs(sr, lr) == [DefLanelet(1) EXCEPT !.signs = sr, !.lights = lr]
 SignsOf(la) == SortIds(Range(la.signs) \cup UNION {Range(s.sref) : s \in Range(la.stop)})
@@ -354,7 +356,7 @@ CasesOf(comp) ==
                                 \cup Rotate("intersection", {y \in InterPool : Len(y.incs) # 2}, EmbedInter)
     [] comp = "header"       -> {Case("header", 4, EmbedHdr(h)) : h \in HeaderPool}
     [] comp = "numbers"      -> {Case("numbers", d, desc) : d \in Precisions, desc \in NumDescs}
-    [] comp \in {"mixed", "mixedx"} -> {CaseR("mixed", RandomElement(Precisions), Renumber(MixedDesc(i), RandomElement(Range(IdTokens))), RandomReuse) :
+    [] comp \in {"mixed", "mixedx"} -> {CaseR("mixed", RandomElement(Precisions), Renumber(MixedDesc(i), RandomElement(Range(IdTokens))), RandomReuse(i)) :
                                           i \in 1..NMixed}   \* see ShardCases
     \* writer reuse on a world that has every component: every edit x second write x obstacle role x id-order token
     [] comp = "reuse"        -> {CaseR("reuse", 4, Renumber(RichWorld(o), tk), Ru(ed, w2)) :
@@ -372,7 +374,7 @@ Seed(k) == [comp |-> "seed", d |-> k, desc |-> <<>>]
 IsSeed == cs.comp = "seed"
 ShardCases(k) ==
   IF Component \in {"mixed", "mixedx"}
-  THEN {c \in {CaseR("mixed", RandomElement(Precisions), Renumber(MixedDesc(i), RandomElement(Range(IdTokens))), RandomReuse) :
+  THEN {c \in {CaseR("mixed", RandomElement(Precisions), Renumber(MixedDesc(i), RandomElement(Range(IdTokens))), RandomReuse(i)) :
                  i \in {j \in 1..NMixed : j % NShards = k - 1}} : WellFormed(c.desc)}
   ELSE LET sq == SetToSeq({c \in Cases : WellFormed(c.desc)}) IN {sq[i] : i \in {j \in DOMAIN sq : j % NShards = k - 1}}
 Init == cs \in {Seed(k) : k \in 1..NShards}
